@@ -79,6 +79,23 @@ class Driver:
                 return ("item", next(it))
             except StopIteration:
                 return ("stop",)
+        if op.endswith("_retry"):
+            # a caller that retries next() on the same iterator after a timeout
+            it = getattr(s, op[:-6])(*args)
+            out = self.partial = []
+            retries = 0
+            while True:
+                try:
+                    out.append(next(it))
+                except StopIteration:
+                    return out
+                except TimeoutError:
+                    retries += 1
+                    if retries > 3:
+                        raise
+                if len(out) >= limit:
+                    out.append("LIMIT")
+                    return out
         raise ValueError(op)
 
     async def _ado(self, op, args, limit):
@@ -106,6 +123,22 @@ class Driver:
                 return ("item", await it.__anext__())
             except StopAsyncIteration:
                 return ("stop",)
+        if op.endswith("_retry"):
+            it = getattr(s, op[:-6])(*args)
+            out = self.partial = []
+            retries = 0
+            while True:
+                try:
+                    out.append(await it.__anext__())
+                except StopAsyncIteration:
+                    return out
+                except TimeoutError:
+                    retries += 1
+                    if retries > 3:
+                        raise
+                if len(out) >= limit:
+                    out.append("LIMIT")
+                    return out
         raise ValueError(op)
 
 
@@ -114,13 +147,14 @@ ALLOWED_EXC = {"PySnmpError", "PySnmpEncodeError", "PySnmpDecodeError", "PySnmpA
                "ConnectionRefusedError"}
 
 
-def classify_exc(info):
-    """-> 'documented' | 'documented-elsewhere' | 'panic' | 'undocumented'."""
+def classify_exc(info, op=None):
+    """-> 'documented' | 'documented-elsewhere' | 'panic' | 'undocumented'.
+    RuntimeError is documented for get_many only ("On Python runtime failure")."""
     mro = info["mro"]
     if "PanicException" in mro or not info["is_exception"]:
         return "panic"
     if any(c in ALLOWED_EXC for c in mro):
         return "documented"
     if "RuntimeError" in mro or "NotImplementedError" in mro:
-        return "documented-elsewhere"
+        return "documented-elsewhere" if op in (None, "get_many") else "undocumented"
     return "undocumented"
